@@ -20,10 +20,27 @@ type c06case struct {
 	Mode    string   `json:"mode"` // error temporary panic badpartition
 	Persist bool     `json:"persistent"`
 	Pos     string   `json:"position"` // first vector-1 vector vector+1 last
+	// Shape: what consumes the output of the task in which the function fails. "" - the result
+	// itself; "shuffle" - a Reshuffle (the task writes several partitions, no combiner);
+	// "combine" - a Map to (key, int64) and a Reduce (the task writes through a combiner).
+	Shape string `json:"shape,omitempty"`
 }
 
 // c06program returns the program of a call site and the index of the node that fails.
-func c06program(site string) (Spec, int) {
+func c06program(site, shape string) (Spec, int) {
+	sp, node := c06base(site)
+	last := len(sp.Nodes) - 1
+	switch shape {
+	case "shuffle":
+		sp.Nodes = append(sp.Nodes, PNode{Op: "reshuffle", In: []int{last}})
+	case "combine":
+		sp.Nodes = append(sp.Nodes, PNode{Op: "map", In: []int{last}, Out: []string{"int", "int64"}, Src: []int{-1, -1}, Salt: 77, Mod: 12},
+			PNode{Op: "reduce", In: []int{last + 1}, Fold: "sum"})
+	}
+	return sp, node
+}
+
+func c06base(site string) (Spec, int) {
 	src := PNode{Op: "const", Shards: 2, Rows: 300, Out: []string{"int", "string"}, Salt: 21, Mod: 40}
 	switch site {
 	case "readerfunc":
@@ -58,13 +75,16 @@ func callsOf(run string, node int) int64 {
 }
 
 func runC06case(t *vf.T, pool *sessionPool, c c06case) {
-	sp, node := c06program(c.Site)
+	sp, node := c06program(c.Site, c.Shape)
 	ls := pool.get(c.Conf)
 	ex := c.Conf.Kind
 	if c.Conf.Combiners {
 		ex += "+machinecombiners"
 	}
 	sig := fmt.Sprintf("site=%s mode=%s persistent=%v exec=%s", c.Site, c.Mode, c.Persist, ex)
+	if c.Shape != "" {
+		sig += " consumer=" + c.Shape
+	}
 	// failure-free dry run on the same session: reference rows and the number of calls
 	dry := sp
 	dry.Run = fmt.Sprintf("c06-%d-dry", t.Index())
@@ -194,7 +214,7 @@ func runC06case(t *vf.T, pool *sessionPool, c c06case) {
 	}
 	a.Res.Discard(bgctx)
 	t.Count("sessions_reused_after_failure", 1)
-	t.Seen("site_mode_matrix", c.Site+"/"+c.Mode+"/"+ex)
+	t.Seen("site_mode_matrix", c.Site+"/"+c.Mode+"/"+ex+"/"+c.Shape)
 	if reached {
 		t.Nontrivial("")
 	}
@@ -233,6 +253,18 @@ func runC06(r *vf.Runner) {
 						}
 						c := c06case{Conf: conf, Site: site, Mode: mode, Persist: persist, Pos: pos}
 						r.Case(c, func(t *vf.T) { runC06case(t, pool, c) })
+						// the same failure in a task whose output is shuffled, without and with a combiner
+						switch site {
+						case "readerfunc", "scanreader", "writerfunc", "map", "filter", "flatmap":
+							for si, shape := range []string{"shuffle", "combine"} {
+								if r.Quick() && (pi+ci+si)%2 != 0 {
+									continue
+								}
+								c := c
+								c.Shape = shape
+								r.Case(c, func(t *vf.T) { runC06case(t, pool, c) })
+							}
+						}
 					}
 				}
 			}
